@@ -151,7 +151,7 @@ class Check:
                     m = re.match(r'\{"e":"(\w+)".*?"blk":(-?\d+)', line)
                     b = int(m.group(2))
                     shape.append((m.group(1), "block" if b >= 1 else "null" if b == 0 else "stack"))
-                elif cur_op and line.startswith(('{"e":"Rand"', '{"e":"Time"', '{"e":"Kdf"')):
+                elif cur_op and line.startswith(('{"e":"Rand"', '{"e":"Time"', '{"e":"Kdf"', '{"e":"Nfc"')):
                     shape.append((line[6:line.index('"', 6)], "-"))
                 elif cur_op and line.startswith('{"e":"Ret"'):
                     m = re.search(r'"st":(\d+)', line[:200])
